@@ -30,6 +30,9 @@ type Op struct {
 	K    string `json:"k"` // append save savec appendc  (the c variants use an already-cancelled context: they must fail and write nothing)
 	Size int    `json:"size,omitempty"` // append: padding bytes
 	Sub  string `json:"sub,omitempty"`  // save: subscription id
+	// Back: save the offset of the Back-th most recent append acknowledged in
+	// this cycle instead of the latest (a consumer rewinding); 0 = latest.
+	Back int `json:"back,omitempty"`
 }
 
 type Cycle struct {
@@ -70,6 +73,13 @@ func ChildMain(scriptPath string) {
 	ctx := context.Background()
 	fmt.Println("READY")
 	var last eventbus.Offset
+	var mine []eventbus.Offset // offsets appended by this process, in order
+	pick := func(back int) eventbus.Offset {
+		if back > 0 && len(mine) > back {
+			return mine[len(mine)-1-back]
+		}
+		return last
+	}
 	for i, op := range sc.Ops {
 		if sc.CloseAt >= 0 && i == sc.CloseAt {
 			break
@@ -83,13 +93,15 @@ func ChildMain(scriptPath string) {
 				os.Exit(3)
 			}
 			last = off
+			mine = append(mine, off)
 			os.Stdout.WriteString(fmt.Sprintf("ACK %d append [%s]\n", i, off))
 		case "save":
-			if err := st.SaveOffset(ctx, op.Sub, last); err != nil {
+			so := pick(op.Back)
+			if err := st.SaveOffset(ctx, op.Sub, so); err != nil {
 				fmt.Println("CHILDERR save:", err)
 				os.Exit(3)
 			}
-			os.Stdout.WriteString(fmt.Sprintf("ACK %d save [%s]\n", i, last))
+			os.Stdout.WriteString(fmt.Sprintf("ACK %d save [%s]\n", i, so))
 		case "savec":
 			cctx, cancel := context.WithCancel(ctx)
 			cancel()
@@ -297,7 +309,7 @@ func Run(c *Case) *vkit.Outcome {
 			}
 			if inflight != nil && inflight.K == "save" && inflight.Sub == sub {
 				// the in-flight save stores the offset of the last append acknowledged in this cycle ("" = position 0 if none)
-				alt := lastAppendOffsetBefore(cy, len(acks), acks)
+				alt := saveOffsetBefore(len(acks), acks, inflight.Back)
 				allowed[alt] = true
 				if alt == "" {
 					allowed["0"] = true
@@ -372,14 +384,22 @@ func Run(c *Case) *vkit.Outcome {
 
 // lastAppendOffsetBefore: offset acknowledged by the last append among the
 // first n acknowledged ops of this cycle ("" if none).
-func lastAppendOffsetBefore(cy Cycle, n int, acks []ack) string {
-	last := ""
+// saveOffsetBefore: the offset a save issued as operation n stores - that of
+// the back-th most recent append acknowledged in the cycle ("" if none).
+func saveOffsetBefore(n int, acks []ack, back int) string {
+	var mine []string
 	for _, a := range acks {
 		if a.idx < n && a.kind == "append" {
-			last = a.off
+			mine = append(mine, a.off)
 		}
 	}
-	return last
+	if len(mine) == 0 {
+		return ""
+	}
+	if back > 0 && len(mine) > back {
+		return mine[len(mine)-1-back]
+	}
+	return mine[len(mine)-1]
 }
 
 var _ = vkit.Tier
